@@ -59,6 +59,8 @@ func pagingTag(it pub.Tangible) int {
 			}
 		}
 		return -9
+	case *pub.Activity:
+		return pagingTag(x.Target())
 	case *pub.Failure:
 		if strings.Contains(plainText(x.Name()), "refusing to read the next collection") {
 			return -2
